@@ -35,6 +35,7 @@ func CompileLuaChunk(source string, s ast.BlockStat) (kidx uint, consts []ir.Con
 
 type compiler struct {
 	*ir.CodeBuilder
+	hasDots bool // true if the function being compiled is a vararg function
 }
 
 func (c *compiler) NewChild(name string) *compiler {
